@@ -44,6 +44,15 @@ mod behaviour;
 pub use crate::behaviour::tokio;
 pub use crate::behaviour::{Behaviour, Event};
 
+/// Verification hooks (only with `--cfg libp2p_verif`).
+#[cfg(libp2p_verif)]
+pub mod verif {
+    pub use crate::behaviour::{
+        VerifPacket, verif_build_query_response as build_query_response,
+        verif_parse as parse_packet,
+    };
+}
+
 /// The DNS service name for all libp2p peers used to query for addresses.
 const SERVICE_NAME: &[u8] = b"_p2p._udp.local";
 /// `SERVICE_NAME` as a Fully Qualified Domain Name.
